@@ -59,6 +59,10 @@ where
     }
 
     let live_for = live_until_ledger - current_ledger;
+    // Start from a fresh entry: `set` on a live temporary entry keeps its old TTL and
+    // `extend_ttl` never shortens one, so a replaced offer would otherwise inherit the
+    // (possibly longer) lifetime of the offer it replaces.
+    e.storage().temporary().remove(pending_key);
     e.storage().temporary().set(pending_key, new);
     e.storage().temporary().extend_ttl(pending_key, live_for, live_for);
 }
